@@ -58,7 +58,10 @@ def value_classes():
                  ("empty", ""), ("dot", "."), ("escape", "/x/\udcfe"), ("none", None)],
         "command": [("posix", "ls -la 'a b'"), ("posix_noargs", "/bin/true"), ("windows", "c:\\x.exe /a b"), ("winenv", "%windir%\\x.exe"),
                     ("win_noexe", ft.command.from_windows(None)), ("posix_noexe", ft.command.from_posix(None)), ("win_explicit", ft.command.from_windows("x.exe /a")),
-                    ("posix_explicit", ft.command.from_posix("x.exe /a")), ("none", None)],
+                    ("posix_explicit", ft.command.from_posix("x.exe /a")),
+                    # an EMPTY executable (a command line that starts with an empty quoted string) is not a missing one
+                    ("posix_empty_exe", ft.command.from_posix("'' --config x")), ("win_empty_exe", ft.command.from_windows('"" /c dir')), ("posix_only_empty", ft.command.from_posix("''")),
+                    ("none", None)],
         "digest": [("md5", (MD5, None, None)), ("all", (MD5, SHA1, SHA256)), ("sha", (None, SHA1, SHA256)), ("none", None)],
         "net.ipaddress": [("v4", "1.2.3.4"), ("v4_zero", "0.0.0.0"), ("v4_max", "255.255.255.255"), ("v6", "2001:db8::1"),
                           ("v6_below_2_32", "::1"), ("v6_zero", "::"), ("v6_mapped", "::ffff:1.2.3.4"),
